@@ -135,10 +135,11 @@ fn c27_grow_to_max_whole_blocks_deep() {
     assert!(raw::current_units(&l) == units, "C27.grow_freelist.reaches_max_units");
     assert!(raw::high_water(&l) <= limit, "C27.grow_freelist.high_water_within_limit");
     assert!(raw::current_capacity(&l) >= units, "C27.grow_freelist.capacity_covers_max_units");
-    let a = l.alloc(k1);
+    // (first fit from the most recently added run: ask for the larger region first so that neither request splits)
     let b = l.alloc(k2);
+    let a = l.alloc(k1);
     assert!(a != FAILURE && b != FAILURE, "C27.alloc.all_grown_units_allocatable");
-    assert!((a == 0 && b == k1) || (k1 == k2 && a == k1 && b == 0), "C27.alloc.runs_are_the_two_grown_regions");
+    assert!(a == 0 && b == k1, "C27.alloc.runs_are_the_two_grown_regions");
     std::mem::forget(l);
 }
 
